@@ -788,6 +788,37 @@ def spec_desc(s):
     return ref(s).desc()
 
 
+LENGTH_KEYS = ("center", "origin", "c1", "c2", "lo", "hi", "radius", "point", "vec", "around")
+
+
+def _scale_val(v, S):
+    if isinstance(v, dict):
+        out = dict(v, a=[float(x) * S for x in np.atleast_1d(np.asarray(v["a"], float))])
+        out["terms"] = [dict(t, coef=[float(x) * S for x in np.atleast_1d(np.asarray(t["coef"], float))]) for t in v["terms"]]
+        return out
+    a = np.asarray(v, float)
+    return (a * S).tolist() if a.ndim else float(a) * S
+
+
+def scale_spec(s, S):
+    """a copy of the spec with every length and position multiplied by S (angles, matrices and flags unchanged)"""
+    if not isinstance(s, dict):
+        return s
+    out = {}
+    for k, v in s.items():
+        if k in LENGTH_KEYS:
+            out[k] = _scale_val(v, S)
+        elif k == "vertices":
+            out[k] = (np.asarray(v, float) * S).tolist()
+        elif k == "holes":
+            out[k] = [(np.asarray(h, float) * S).tolist() for h in v]
+        elif k in ("a", "b", "d") and isinstance(v, dict):
+            out[k] = scale_spec(v, S)
+        else:
+            out[k] = v
+    return out
+
+
 def spec_ops(s, acc=None):
     """multiset of node kinds in a spec (for case-class signatures)"""
     acc = [] if acc is None else acc
